@@ -206,6 +206,22 @@ class FuncFacts:
                 return None
         return d.value
 
+    def raw_def_at(self, name: str, at: ast.AST) -> Optional[ast.expr]:
+        """Value of the unique plain assignment reaching `at`, without the freshness check of def_at (use only for
+        properties of the value that later mutation of its sources cannot change, e.g. the length of a slice copy)."""
+        from .rules.common import ReachingDefs
+        rd = getattr(self, "_rd", None)
+        if rd is None:
+            rd = ReachingDefs(self.cfg)
+            self._rd = rd
+        nodes = self.cfg.nodes_of(at)
+        if not nodes:
+            return None
+        defs = rd.defs_at(nodes[0], name)
+        if len(defs) == 1 and isinstance(defs[0], ast.Assign) and len(defs[0].targets) == 1 and isinstance(defs[0].targets[0], ast.Name):
+            return defs[0].value
+        return None
+
     def canon(self, text: str) -> str:
         """Normal form of an expression given as source text (to compare with norm(expr, subst=False))."""
         return norm(ast.parse(text, mode="eval").body, self.folder, self.scope, None)
@@ -442,6 +458,10 @@ class _Interval:
                     return self.ev(ast.Call(func=ast.Name(id="len", ctx=ast.Load()), args=[alias], keywords=[]), depth + 1)
                 if isinstance(a, ast.Name) and a.id in self.defs:
                     a = self.defs[a.id]
+                elif isinstance(a, ast.Name) and self.at is not None:
+                    rdv = self.ff.raw_def_at(a.id, self.at)
+                    if isinstance(rdv, ast.Subscript) and isinstance(rdv.slice, ast.Slice):
+                        a = rdv          # a slice is a copy: its length is fixed at creation
                 if isinstance(a, ast.Subscript) and isinstance(a.slice, ast.Slice) and a.slice.step is None:
                     lo_s = self.ev(a.slice.lower, depth + 1) if a.slice.lower is not None else (0, 0)
                     hi_s = self.ev(a.slice.upper, depth + 1) if a.slice.upper is not None else (None, None)
